@@ -27,22 +27,31 @@ def hx(b):
 # independent pre-scan: va_arg classes a format names, in fetch order ('i' int, 'l' long,
 # 'q' long long, 's' char string, 'w' wide string, 'p' pointer for %p)
 # ------------------------------------------------------------------------------------------------
-def scan_args(fmt):
+def scan_args(fmt, conflict=None):
+    conflict = conflict if conflict is not None else [False]
     s = bytes(fmt) + b"\0"
     out = []            # classes of the variadic arguments in the order of the va_list
     cached = [0]        # how many arguments the positional directives have cached so far
+    cache_cls = []
 
-    def fetch(cls, pos):
+    def fetch(cls, pos, size=None):
         """pos None: the next argument.  pos (0-based): the arguments up to that position, counted from
         where the positional directives started; those not yet cached are taken from the va_list with the
         type of this directive.  For formats that are purely sequential or purely positional this is the
         ISO / POSIX reading; mixing the two is undefined there and is given this meaning here."""
+        size = size or {"i": 4, "l": 8, "q": 8, "s": 9, "w": 10, "p": 8}[cls]
         if pos is None:
             out.append(cls)
             return
         while cached[0] <= pos:
             out.append(cls)
+            cache_cls.append(size)
             cached[0] += 1
+        # the same argument named with two different types by two directives (or fetched on the way to a
+        # higher position with another type): no argument list has "the types the directives name"
+        # (D33 territory: a wild pointer, or bytes of the cache that were never written)
+        if cache_cls[pos] != size:
+            conflict[0] = True
 
     i = 0
     while s[i] != 0:
@@ -106,9 +115,10 @@ def scan_args(fmt):
         if c in "diuoxXbB":
             if mod == "L":
                 continue
-            fetch({"": "i", "hh": "i", "h": "i", "l": "l", "ll": "q", "z": "l", "t": "l", "j": "l"}[mod], pos)
+            fetch({"": "i", "hh": "i", "h": "i", "l": "l", "ll": "q", "z": "l", "t": "l", "j": "l"}[mod], pos,
+                  {"hh": 1, "h": 2}.get(mod))
         elif c == "c":
-            fetch("i", pos)
+            fetch("i", pos, 1)
         elif c == "s":
             fetch("w" if mod == "l" else "s", pos)
         elif c == "p":
@@ -371,7 +381,11 @@ def values_for(classes, rng=None):
 
 
 def raw_group(fmt, rng=None, tag="malformed"):
-    return ["fmt " + hx(fmt)] + values_for(scan_args(fmt), rng) + ["tag " + tag]
+    conflict = [False]
+    classes = scan_args(fmt, conflict)
+    if conflict[0]:
+        fmt, classes, tag = b"", [], "skipped-type-conflict"
+    return ["fmt " + hx(fmt)] + values_for(classes, rng) + ["tag " + tag]
 
 
 def exhaustive_strings(maxlen, percent_first_from=None):
